@@ -97,4 +97,9 @@ theorem guards_needed :
 theorem concurrent_appenders_can_break : ¬ ConcW.no_runtime_panic_stmt ∧ ¬ ConcW.no_deadlock_stmt :=
   ⟨ConcW.no_runtime_panic_refuted, ConcW.no_deadlock_refuted⟩
 
+/-- every reference a call takes on the current state is given back exactly once (read from the source on every run: each
+    `acquireState()` site declares fresh variables and defers the release in the next statement) — the discipline the
+    readers of `Model.Conc` follow and `refcount_exact` / `no_double_close` / the reclaim theorems rest on -/
+theorem every_acquire_is_released_once : Generated.everyAcquireHasDeferredRelease = true := by decide
+
 end RaftWal.C14
